@@ -13,7 +13,7 @@ void harness(void)
 {
   static ares_channel_t ch;
   ares_server_t        *srv[2];
-  ares_conn_t          *conns[4];
+  ares_conn_t          *conns[8];
   int                   nconn = 0, i, ns, nfds, expected_cnt = 0, numsocks, bitmap;
   int                   active;
   fd_set                rfds, wfds;
